@@ -36,6 +36,8 @@ def run(ck):
     ck.rule("C18.R11", "with `log`, the record text names every field: the value-set formatter writes each visited field, whatever its name", floor=2)
     ck.rule("C18.R10", "with `log`, enter/exit records come from Span::do_enter/do_exit: Instrumented polls through them for every span, enabled or not (as C17.R3)", floor=1)
     ck.rule("C18.R9", "EnteredSpan::exit exits once: the guard it consumes is left holding Span::none(), so its Drop has nothing to exit or log", floor=2)
+    ck.rule("C18.R15", "with `log`, a span no collector takes still gets its creation record: in every span! expansion, each path that builds the disabled span "
+            "while no collector was ever installed and the level is within log's static and dynamic maximum hands the fields to Span::record_all -- no further test withholds it", floor=100)
     ck.rule("C18.R14", "LogTracer judges a record against LevelFilter::current(): that maximum covers every live collector (the rebuild keeps every live dispatcher and asks it again, every Dispatch is registered; as C01.R5/R6)", floor=6)
     ck.rule("C18.R6", "LogTracer builder options accumulate: no builder call discards an ignored prefix or the max level", floor=3)
     F = Facts("default")
@@ -57,6 +59,7 @@ def run(ck):
     C17.r3_lib(ck, Facts("log"), rid="C18.R10")
     r11(ck)
     r12(ck)
+    r15(ck)
 
 
 def r9(ck):
@@ -642,6 +645,52 @@ def r11(ck):
             ck.bad("C18.R11", key, where(b.raw["sp"]), "; ".join(bad[:2]) + ": a field is left out of (or repeated in) the log record's text", fn=b.path)
         else:
             ck.ok("C18.R11", key, fn=b.path)
+
+
+def r15(ck):
+    """The creation record of a span without a collector is emitted by Span::record_all (under the span's own target
+    when it has field values, else under `tracing::span`); Span::log asks the logger about *that* target. The macro may
+    only skip the call when no record can exist at all: a collector has been installed, or the level is above
+    log's STATIC_MAX_LEVEL / max_level()."""
+    from rulekit.sym import PathEval, show
+    FX = Facts("fx_log")
+    if "fx_log" not in ck.configs:
+        ck.configs.append("fx_log")
+    n = 0
+    for fname, exp in sorted(FX.expect.items()):
+        if exp["kind"] != "span":
+            continue
+        b = FX.body("fx_macros_log::macros_gen::" + fname)
+        if b is None:
+            continue
+        lvl = exp["level"].capitalize()
+        withheld = []
+        must = 0
+        for p in PathEval(b).run():
+            if p.end != "return":
+                continue
+            meths = [c[1].get("method") for c in p.calls]
+            if "disabled_span" not in meths:
+                continue
+            conds = [(show(c[0]), c[1]) for c in p.conds if c[0][0] != "const"]
+            never_set = any(t == "has_been_set()" and v == 0 for t, v in conds)
+            lv = [(t, v) for t, v in conds if t.startswith("le(Level::%s{}, " % lvl) or (t.startswith("ge(") and t.endswith(", Level::%s{})" % lvl))]
+            if not never_set or not lv or any(v == 0 for t, v in lv) or not any("max_level()" in t for t, v in lv):
+                continue
+            must += 1
+            if "record_all" not in meths:
+                other = [t[:70] for t, v in conds if t != "has_been_set()" and (t, v) not in lv and not t.startswith(("le(promoted", "is_never(", "Not(is_never(", "is_enabled(", "is_always("))]
+                withheld.append(other or ["<no further condition>"])
+        key = "%s [span!, log]: creation record whenever one can exist" % fname
+        n += 1
+        if withheld:
+            ck.bad("C18.R15", "span! (log feature): the creation record is withheld although a log record can exist", where(b.raw["sp"]),
+                   "a path with no collector ever installed and %s <= log::max_level() skips Span::record_all under %s (fixture %s): the logger is never asked "
+                   "about the record that would be made (a field-less span's creation record goes to `tracing::span`)" % (lvl, withheld[0], fname), fn=b.path)
+        elif must:
+            ck.ok("C18.R15", key, fn=b.path, detail=must)
+        else:
+            ck.bad("C18.R15", key, where(b.raw["sp"]), "no path of the expansion reaches the log fallback (fixture %s)" % fname, fn=b.path)
 
 
 def r12(ck):
